@@ -203,6 +203,7 @@ type Sim struct {
 
 type Stats struct {
 	Yields, Switches, Preemptions, TasksSpawned, TimersFired, SpinParks uint64
+	MaxSlice uint64 // most steps any task ran without blocking or being switched out
 }
 
 var cur *Sim
@@ -932,10 +933,14 @@ func (s *Sim) Run(stop func() bool, advanceTime bool) StopReason {
 		s.cur = t
 		t.started = true
 		s.sliceEnd = s.Step + 2*s.StepBudget
+		sliceStart := s.Step
 		t.wake <- struct{}{}
 		<-s.back
 		s.cur = nil
 		s.sliceEnd = 0
+		if d := s.Step - sliceStart; d > s.Stats.MaxSlice {
+			s.Stats.MaxSlice = d
+		}
 		if s.Step-start > s.StepBudget {
 			return Budget
 		}
